@@ -77,6 +77,7 @@ def parseOp (ws : List String) : Option Op :=
   | ["setstrref", a, v] => some (.setStrRef a.toNat! v.toNat!)
   | "collect" :: gp :: slots => some (.collect (slots.map parseSlot) gp.toNat!)
   | "omfalos" :: slots => some (.omfalos (slots.map parseSlot))
+  | "run" :: gp :: slots => some (.run (slots.map parseSlot) gp.toNat!)
   | _ => none
 
 /-- one protocol line; the answer is one line.  Every operation goes through
